@@ -179,3 +179,28 @@ META["C11"] = {
     "note": "Only executed interleavings are judged (no report is not proof of absence); harness callbacks only read; operations that panic under contention are not judged here.",
     "technique": "generated concurrent workloads (rapid) executed under the Go race detector (-race), reports classified by frame pair",
 }
+
+# dimensions added after the fifth round of seeded changes (sizes, time, reuse, narrow interleavings), appended to the texts above
+_ROUND5 = {
+    "C01": "Option values with equal content are reused across calls on half of the resources, writes sometimes hand back the object a Get returned, write times include Go's zero time / pre-epoch times, and one history in fifteen runs 31-150 calls.",
+    "C02": "Resources are configured with no / exact / coarse equivalence; the counter stress has a rendezvous mode (writers meet between read and write); Delete's retry loop is enumerated exhaustively (precondition x parameter x interfering call x 0-8 consecutive interferences).",
+    "C03": "Writes carry back-dated, non-increasing write times; a burst layer (one fast writer, 200-4000 writes over up to 3000 ids, readers that lag but keep receiving) checks convergence independently of how far a reader is behind.",
+    "C04": "Crowds of 14-40 additional subscribers, histories of up to 120 writes and write times at Go's zero time / the unix epoch / before the epoch are drawn now and then.",
+    "C05": "A concurrent layer (TestDisjointMaskWriters) has 2-6 writers each owning one field and writing it with a single-field mask, released together inside their before-interceptor; every field must end with its successful writer's value.",
+    "C06": "One ResponseFilter object is also applied to several messages (and types) in a row: projection for masks valid everywhere, independence from earlier use otherwise.",
+    "C07": "Name pools of 16-21 entries, up to 8 names per variadic call and runs of up to 120 steps let stored lists grow past a dozen entries.",
+    "C08": "A further layer combines an approximate equivalence with predicates sensitive inside the tolerance, back-dated write times and lossy subscribers that were not receiving; its oracle is membership of the folded filtered stream == List(include).",
+    "C09": "A backpressured consumer that reads the resource (Get / List) between receives is part of the workload: every write must complete and every event arrive (one listed known finding: Collection.Delete publishes while holding the lock).",
+    "C10": "Subscribes injected at hook points run under a watchdog so that a write holding a lock at that point cannot wedge the harness.",
+    "C11": "Calls that last longer than the library's own time thresholds (1.1-1.6 s callbacks, over 5 s in the thorough tier) and one option slice with spare capacity shared by all goroutines are part of the workloads.",
+    "C12": "Child streams whose header becomes available only after 60 ms-1.1 s (real time) are drawn about once in sixty streaming cases.",
+    "C13": "Unary and server-streaming scripts are also run with dynamicpb client messages built from the client's own copy of the file descriptor; a family of near-miss full method names (prefix services, case, extra segments) is compared with a real gRPC server.",
+    "C14": "A third of the cases build the model with a clock that steps forwards and backwards; generated messages carry enum numbers without a name now and then (proto3 open enums).",
+    "C15": "Collections of 2048-9000 records are drawn now and then.",
+    "C16": "Unknown-field sets of up to 40 fields with repeating numbers and re-interleavings that protobuf equality cannot see; a lagging subscriber without backpressure on a resource with exact-duplicate suppression must never be sent a value it already holds.",
+    "C18": "Seconds at the int64 ms/us/ns conversion limits (exhaustive boundary pairs), lists of up to 120 segments, and Sum called from 2-12 goroutines at once.",
+    "C19": "Duels judge the response of a successful clear (the reported mode is marked normal) and include calls that take the normal flag away.",
+    "C20": "Batches of 5-48 trait names per call and publication bodies of 64 KiB-1 MiB that differ in one byte.",
+}
+for _k, _v in _ROUND5.items():
+    META[_k]["text"] += " " + _v
